@@ -344,8 +344,18 @@ def _hypotest_end_to_end(ctx, rid, repo):
     region = AutoRegion()  # statistics evaluated on something else than expected still get (generic) values: a deviation, not a refusal
     region["NEGINF"] = Fraction(-10 ** 9)
 
+    from .c14 import accepted_statistic_names
+    try:
+        accepted = accepted_statistic_names(repo)
+    except Undecided as e:
+        ctx.unrecognised(rid, hyp, "get_test_stat", f"not interpretable: {e}")
+        return
+
     def get_test_stat(a, k):
         name = a[0]
+        if name not in accepted:
+            from ..alg import _PyRaise
+            raise _PyRaise("InvalidTestStatistic")  # as the real lookup (interpreted above) does for this spelling
 
         def tsf(a2, k2):
             kk = dict(k2)
@@ -410,11 +420,26 @@ def _hypotest_end_to_end(ctx, rid, repo):
         ("second call, other mu and data, qtilde, sqrt(q) > sqrt(qA)", "qtilde", at("mu_2"), data2, Fraction(3), Fraction(2)),
         ("third call, q0 on the first data", "q0", at("mu_3"), data1, Fraction(3, 2), Fraction(5, 2)),
         ("fourth call, q", "q", at("mu_1"), data2, Fraction(1, 2), Fraction(3)),
+        # other spellings of a statistic name: refused by the lookup, or -- where the lookup accepts them -- meaning the SAME
+        # statistic everywhere (the Asimov hypothesis and what hypotest returns are chosen by comparing the name too)
+        ("fifth call, the discovery statistic spelled 'Q0'", "Q0", at("mu_3"), data2, Fraction(3, 2), Fraction(5, 2)),
+        ("sixth call, 'QTILDE', sqrt(q) > sqrt(qA)", "QTILDE", at("mu_2"), data1, Fraction(3), Fraction(2)),
     ]
     cdf = lambda x: fn("normal_cdf", to_poly(x))
     for lab, stat, mu, data, s_rep, a_rep in plan:
         init, bounds, fixed = Obj("init_" + lab[:5]), Obj("bounds_" + lab[:5]), [False, False]
-        amu = 1 if stat == "q0" else 0
+        canon = accepted.get(stat)
+        if canon is None:
+            try:
+                w.call_func(hyp, [mu, data, pdf, init, bounds, fixed], {"test_stat": stat})
+                ctx.violated(rid, hyp, f"hypotest end to end [{lab}]", f"a statistic name the lookup refuses ({stat!r}) is accepted by hypotest")
+            except RaisedInFragment:
+                ctx.holds(rid, f"{INF}::hypotest [{lab}]", "refused: the name is not one the lookup knows")
+            except errs as e:
+                ctx.unrecognised(rid, hyp, f"hypotest end to end [{lab}]", f"not interpretable: {type(e).__name__}: {e}")
+            continue
+        raw, stat_label = stat, stat
+        amu = 1 if canon == "q0" else 0
         # the tested value: q0 is always evaluated at the mu the caller passes (hypotest does not rewrite it)
         t_obs = f"{stat}:{to_poly(mu)};{tag(data)}"
         asimov_name = f"ASIMOV<BESTFIT<{to_poly(to_poly(amu))};{tag(data)}>>"
@@ -432,10 +457,10 @@ def _hypotest_end_to_end(ctx, rid, repo):
         except errs as e:
             ctx.unrecognised(rid, hyp, f"hypotest end to end [{lab}]", f"not interpretable: {type(e).__name__}: {e}")
             continue
-        T = (Q - QA) / (2 * a_) if (stat == "qtilde" and s_rep > a_rep) else s_ - a_
+        T = (Q - QA) / (2 * a_) if (canon == "qtilde" and s_rep > a_rep) else s_ - a_
         CLsb, CLb = cdf(-(T + a_)), cdf(-T)
-        band = [cdf(-(Poly.const(N) + a_)) / cdf(-Poly.const(N)) if stat != "q0" else cdf(-(Poly.const(N) + a_)) for N in (2, 1, 0, -1, -2)]
-        want = [CLsb if stat == "q0" else CLsb / CLb, [CLb] if stat == "q0" else [CLsb, CLb], band[2], band]
+        band = [cdf(-(Poly.const(N) + a_)) / cdf(-Poly.const(N)) if canon != "q0" else cdf(-(Poly.const(N) + a_)) for N in (2, 1, 0, -1, -2)]
+        want = [CLsb if canon == "q0" else CLsb / CLb, [CLb] if canon == "q0" else [CLsb, CLb], band[2], band]
         probs = []
         stats_, fpfs = rec["stat"][n_s:], rec["fpf"][n_f:]
         if [t for _, _, t in stats_] != [t_obs, t_asi]:
